@@ -9,7 +9,9 @@
      LResolved e nb  TypedContent.resolved_cache[nb] of schema object e   (sxbasic.py)
      LFactory k      sudsobject.Factory.cache[k]                           (sudsobject.py)
      LMrNodes o / LMrCatalog o   MultiRef.nodes / MultiRef.catalog of the MultiRef object o
-     LProxy c        HttpTransport.proxy of the transport of client c (transport/http.py: send)
+     LProxy c        the attributes the transport of client c re-assigns at every request with values
+                     determined by its own options: HttpTransport.proxy (transport/http.py: send) and
+                     HttpAuthenticated.pm (transport/https.py: addcredentials); read by u2handlers
      LClassAttr k a  a cell owned by a class or a module of suds: class attribute a of class k,
                      an entry of a class-level dictionary or list, a module global (other than
                      sudsobject.Factory.cache, which is LFactory)
